@@ -90,6 +90,9 @@ func (Engine) Generate(r *simcore.RNG, tier string, idx int) *simcore.Plan {
 	p.Config["minval"] = int64(r.Intn(len(minValues)))
 	p.Config["price"] = int64(r.Intn(len(prices)))
 	faults := idx%2 == 1
+	if idx%4 == 3 {
+		p.Config["spec"] = 60 + int64(idx/4%5)*60 // permille of blocks first executed speculatively on a discarded branch (simchain.Node.Spec)
+	}
 	amount := func() int64 {
 		switch r.Weighted([]int{3, 4, 4}) {
 		case 0:
@@ -114,7 +117,7 @@ func (Engine) Generate(r *simcore.RNG, tier string, idx int) *simcore.Plan {
 	n := int(r.Range(15, 55))
 	for i := 0; i < n; i++ {
 		st := simcore.Step{}
-		switch r.Weighted([]int{20, 8, 7, 15, 8, 20, 8, 2, 2, 1, 2}) {
+		switch r.Weighted([]int{20, 8, 7, 15, 8, 20, 8, 2, 2, 1, 2, 5}) {
 		case 0:
 			st = lockStep()
 		case 1:
@@ -151,10 +154,13 @@ func (Engine) Generate(r *simcore.RNG, tier string, idx int) *simcore.Plan {
 			st.Op = "unroute"
 		case 10:
 			st.Op = "reroute"
+		case 11:
+			st.Op = "extend" // MsgExtendLockup: the other door that re-writes a lock (duration only; owner, amount and receiver stay)
+			st.A = []int64{r.Range(0, 63), r.Range(0, 4), r.Range(0, 19)}
 		}
 		if faults && r.Chance(0.15) {
 			switch st.Op {
-			case "lock", "begin", "setrecv", "gauge", "add":
+			case "lock", "begin", "setrecv", "gauge", "add", "extend":
 				if r.Chance(0.35) {
 					st.F = "abort"
 				} else {
@@ -427,6 +433,12 @@ func (Engine) Execute(run *simcore.Run) {
 		mg.Minter.EpochProvisions = osmomath.ZeroDec()
 		gs[minttypes.ModuleName] = cdc.MustMarshalJSON(&mg)
 	}})
+	n.Spec = run.Plan.Cfg("spec", 0)
+	defer func() {
+		for i := 0; i < n.Specs; i++ {
+			run.Fault("speculative-block-discarded")
+		}
+	}()
 	w := &world{run: run, n: n, owners: owners, minVal: big.NewInt(minVal), routed: true,
 		locks: map[uint64]*refLock{}, gauges: map[uint64]*refGauge{},
 		epochStart: simchain.GenesisTime, epochNum: 1,
@@ -1131,8 +1143,7 @@ func (w *world) invariants(op string) bool {
 			}
 		}
 	}
-	w.checkLocks(ctx)
-	return true
+	return w.checkLocks(ctx)
 }
 
 func (w *world) queryIDs(ctx sdk.Context, st int) []uint64 {
@@ -1158,24 +1169,45 @@ func (w *world) queryIDs(ctx sdk.Context, st int) []uint64 {
 	return ids
 }
 
-// checkLocks keeps the lock table honest: it is an input of the reference, and
-// x/lockup's own behaviour is C06's subject, so a disagreement here is a
-// harness error, not a C09 finding.
-func (w *world) checkLocks(ctx sdk.Context) {
+// checkLocks compares the chain's lock records with the lock changes of the history: they are what "every qualifying
+// lock" and "the lock's reward receiver" of the property refer to. A record that drifts from the history (a receiver
+// reset by an unrelated lock operation, a duration or amount the owner never asked for) makes every later payout wrong
+// with respect to the history, so it is reported here, at the operation that caused it, and not as a harness error.
+func (w *world) checkLocks(ctx sdk.Context) bool {
 	all, err := w.n.App.LockupKeeper.GetPeriodLocks(ctx)
 	if err != nil {
 		panic(err)
 	}
 	if len(all) != len(w.locks) {
-		panic(fmt.Sprintf("lock table out of sync: chain has %d locks, reference %d", len(all), len(w.locks)))
+		w.run.Fail("C09", "lock-record-vs-history", "count", "the chain has %d locks, the history %d", len(all), len(w.locks))
+		return false
 	}
 	for _, g := range all {
 		l := w.locks[g.ID]
-		if l == nil || g.Owner != w.n.Accts[l.owner].String() || g.Duration != l.duration || !g.EndTime.Equal(l.end) || len(g.Coins) != 1 ||
-			g.Coins[0].Denom != l.denom || g.Coins[0].Amount.BigInt().Cmp(l.amount) != 0 || g.RewardReceiverAddress != l.receiver {
-			panic(fmt.Sprintf("lock table out of sync: chain lock %+v, reference %+v", g, l))
+		if l == nil {
+			w.run.Fail("C09", "lock-record-vs-history", "unknown", "chain lock %+v is not in the history", g)
+			return false
+		}
+		field := ""
+		switch {
+		case g.Owner != w.n.Accts[l.owner].String():
+			field = "owner"
+		case g.Duration != l.duration:
+			field = "duration"
+		case !g.EndTime.Equal(l.end):
+			field = "end-time"
+		case len(g.Coins) != 1 || g.Coins[0].Denom != l.denom || g.Coins[0].Amount.BigInt().Cmp(l.amount) != 0:
+			field = "coins"
+		case g.RewardReceiverAddress != l.receiver:
+			field = "reward-receiver"
+		}
+		if field != "" {
+			w.run.Fail("C09", "lock-record-vs-history", field, "lock %d: chain record %+v, the lock changes of the history give owner %d receiver %q duration %s end %s %s%s",
+				g.ID, g, l.owner, l.receiver, l.duration, l.end, l.amount, l.denom)
+			return false
 		}
 	}
+	return true
 }
 
 // ---- messages ----
@@ -1393,6 +1425,26 @@ func (w *world) build(st simcore.Step) *built {
 			w.run.Probe("reward-receiver-changed")
 			if stored == w.blocked.String() {
 				w.run.Probe("reward-receiver-is-blocked-address")
+			}
+			return true
+		}}
+	case "extend":
+		l := w.pickLock(abs(st.Arg(0)))
+		if l == nil {
+			return nil
+		}
+		sender := l.owner
+		if st.Arg(2) == 0 {
+			sender = (l.owner + 1) % w.owners
+		}
+		dur := lockDurs[int(abs(st.Arg(1)))%len(lockDurs)]
+		msg := &lockuptypes.MsgExtendLockup{Owner: n.Accts[sender].String(), ID: l.id, Duration: dur}
+		id := l.id
+		return &built{msg: msg, apply: func(res simchain.Result) bool {
+			w.locks[id].duration = dur
+			w.run.Probe("lock-extended")
+			if w.locks[id].receiver != "" {
+				w.run.Probe("lock-with-reward-receiver-extended")
 			}
 			return true
 		}}
